@@ -11,6 +11,9 @@
 //	go        go statements
 //	osenv     os.Getenv / LookupEnv / Environ / Hostname / Getpid / Getwd, time.Local / Time.Local() (host time zone)
 //	runtime   any use of package runtime
+//	procstate write to process-local state: a package-level variable or a field of a hand-written struct type of
+//	          the application (assignment, index assignment, append, delete, Store/Delete/..., big.Int mutators)
+//	          outside constructors (New*/Make*), init and Register* functions
 //
 // Each site is keyed by file + function + kind + expression text + ordinal (no line numbers).
 // The same pass extracts the SetOrderBeginBlockers / EndBlockers / InitGenesis lists of app/app.go.
@@ -234,6 +237,116 @@ func fingerprintOf(pi *pkgInfo, decls map[types.Object]*ast.FuncDecl, root ast.N
 	return hex.EncodeToString(h.Sum(nil))[:16]
 }
 
+// ---- process-local state: package-level variables and fields of hand-written struct types of
+// the application (keepers, decorators, modules, servers ...) that are WRITTEN outside
+// constructors / init / registration code.  The property's mechanism is "all state access through
+// the block context": anything a handler keeps in the process survives rollbacks, is filled by
+// CheckTx / query / simulate contexts and is empty after a restart.
+func isPkgLevelVar(o types.Object) bool {
+	v, ok := o.(*types.Var)
+	if !ok || v.IsField() || v.Pkg() == nil {
+		return false
+	}
+	return v.Parent() == v.Pkg().Scope() && (v.Pkg().Path() == modPath || strings.HasPrefix(v.Pkg().Path(), modPath+"/"))
+}
+
+func statefulOwner(t types.Type) string {
+	if p, ok := t.(*types.Pointer); ok {
+		t = p.Elem()
+	}
+	n, ok := t.(*types.Named)
+	if !ok || n.Obj().Pkg() == nil {
+		return ""
+	}
+	pp := n.Obj().Pkg().Path()
+	if pp != modPath && !strings.HasPrefix(pp, modPath+"/") {
+		return ""
+	}
+	if _, ok := n.Underlying().(*types.Struct); !ok {
+		return ""
+	}
+	if strings.HasSuffix(fset.Position(n.Obj().Pos()).Filename, ".pb.go") {
+		return "" // protobuf messages are data
+	}
+	return n.Obj().Pkg().Name() + "." + n.Obj().Name()
+}
+
+// procRoot: the process-local object an lvalue / receiver expression is rooted at ("" if none):
+// a package-level variable, or a field of an application struct reached from the receiver or a
+// parameter of the enclosing function (fields of local values are not process state).
+var curParams = map[types.Object]bool{}
+
+func procRoot(pi *pkgInfo, e ast.Expr) string {
+	field := ""
+	for {
+		switch x := e.(type) {
+		case *ast.ParenExpr:
+			e = x.X
+		case *ast.StarExpr:
+			e = x.X
+		case *ast.IndexExpr:
+			e = x.X
+		case *ast.SliceExpr:
+			e = x.X
+		case *ast.SelectorExpr:
+			if sel, ok := pi.info.Selections[x]; ok {
+				if sel.Kind() != types.FieldVal {
+					return ""
+				}
+				if o := statefulOwner(sel.Recv()); o != "" {
+					field = o + "." + x.Sel.Name
+				}
+				e = x.X
+				continue
+			}
+			if o := pi.info.Uses[x.Sel]; o != nil && isPkgLevelVar(o) {
+				return o.Pkg().Name() + "." + o.Name()
+			}
+			return ""
+		case *ast.Ident:
+			o := pi.info.Uses[x]
+			if o != nil && isPkgLevelVar(o) {
+				return o.Pkg().Name() + "." + o.Name()
+			}
+			if field != "" && o != nil && curParams[o] {
+				return field
+			}
+			return ""
+		default:
+			return ""
+		}
+	}
+}
+
+var mutators = map[string]bool{"Store": true, "Delete": true, "LoadOrStore": true, "LoadAndDelete": true, "Swap": true, "CompareAndSwap": true,
+	"Add": true, "Sub": true, "Mul": true, "Quo": true, "Set": true, "SetInt64": true, "SetUint64": true, "SetString": true, "SetBytes": true, "Neg": true,
+	"PushBack": true, "PushFront": true, "Remove": true, "Init": true, "Reset": true, "Write": true, "WriteString": true}
+
+func mutableLibType(t types.Type) bool {
+	if t == nil {
+		return false
+	}
+	if p, ok := t.(*types.Pointer); ok {
+		t = p.Elem()
+	}
+	n, ok := t.(*types.Named)
+	if !ok || n.Obj().Pkg() == nil {
+		return false
+	}
+	switch n.Obj().Pkg().Path() {
+	case "sync", "sync/atomic", "math/big", "container/list", "container/heap", "container/ring", "bytes", "strings":
+		return true
+	}
+	return false
+}
+
+func wiringFunc(fn string) bool {
+	if i := strings.LastIndexByte(fn, '.'); i >= 0 {
+		fn = fn[i+1:]
+	}
+	return fn == "init" || fn == "<pkg>" || strings.HasPrefix(fn, "New") || strings.HasPrefix(fn, "Register") || strings.HasPrefix(fn, "Make")
+}
+
 func scan(pi *pkgInfo, relDir string) []site {
 	var out []site
 	decls := map[types.Object]*ast.FuncDecl{}
@@ -262,6 +375,34 @@ func scan(pi *pkgInfo, relDir string) []site {
 		visit := func(fn string, root ast.Node) {
 			ast.Inspect(root, func(n ast.Node) bool {
 				switch x := n.(type) {
+				case *ast.AssignStmt:
+					if !wiringFunc(fn) && x.Tok != token.DEFINE {
+						for _, l := range x.Lhs {
+							if r := procRoot(pi, l); r != "" {
+								add(fn, "procstate", r)
+							}
+						}
+					}
+				case *ast.IncDecStmt:
+					if r := procRoot(pi, x.X); r != "" && !wiringFunc(fn) {
+						add(fn, "procstate", r)
+					}
+				case *ast.CallExpr:
+					if wiringFunc(fn) {
+						break
+					}
+					if id, ok := x.Fun.(*ast.Ident); ok && (id.Name == "delete" || id.Name == "clear" || id.Name == "copy") && len(x.Args) > 0 {
+						if _, isBuiltin := pi.info.Uses[id].(*types.Builtin); isBuiltin {
+							if r := procRoot(pi, x.Args[0]); r != "" {
+								add(fn, "procstate", r)
+							}
+						}
+					}
+					if se, ok := x.Fun.(*ast.SelectorExpr); ok && mutators[se.Sel.Name] && mutableLibType(pi.info.TypeOf(se.X)) {
+						if r := procRoot(pi, se.X); r != "" {
+							add(fn, "procstate", r)
+						}
+					}
 				case *ast.GoStmt:
 					add(fn, "go", src(x.Call.Fun))
 				case *ast.RangeStmt:
@@ -313,6 +454,19 @@ func scan(pi *pkgInfo, relDir string) []site {
 			case *ast.FuncDecl:
 				if x.Body != nil {
 					n0 := len(out)
+					curParams = map[types.Object]bool{}
+					for _, fl := range []*ast.FieldList{x.Recv, x.Type.Params} {
+						if fl == nil {
+							continue
+						}
+						for _, fld := range fl.List {
+							for _, nm := range fld.Names {
+								if o := pi.info.Defs[nm]; o != nil {
+									curParams[o] = true
+								}
+							}
+						}
+					}
 					visit(recvName(x), x)
 					if len(out) > n0 {
 						fingerprints = append(fingerprints, fingerprint{rel, recvName(x), fingerprintOf(pi, decls, x)})
@@ -490,9 +644,9 @@ func main() {
 	b.WriteString("(* GENERATED by /verif/harness/cmd/gen_nondet from the working tree -- do not edit.\n")
 	fmt.Fprintf(&b, "   %d packages, %d files scanned (x/, app/ and types/; excluded: client cli simulation legacy testutil teststaking, *_test.go, *.pb.gw.go). *)\n", len(scopes), nfiles)
 	b.WriteString("From Sekai Require Import Base.Prelude.\n\n")
-	b.WriteString("Inductive site_kind : Type := KTimeNow | KRand | KMapRange | KPbMap | KMapKeys | KGo | KOsEnv | KRuntime.\n")
+	b.WriteString("Inductive site_kind : Type := KTimeNow | KRand | KMapRange | KPbMap | KMapKeys | KGo | KOsEnv | KRuntime | KProcState.\n")
 	b.WriteString("Record site : Type := mkSite { s_file : string; s_func : string; s_kind : site_kind; s_expr : string; s_ord : nat }.\n\n")
-	kinds := map[string]string{"timenow": "KTimeNow", "rand": "KRand", "maprange": "KMapRange", "pbmap": "KPbMap", "mapkeys": "KMapKeys", "go": "KGo", "osenv": "KOsEnv", "runtime": "KRuntime"}
+	kinds := map[string]string{"timenow": "KTimeNow", "rand": "KRand", "maprange": "KMapRange", "pbmap": "KPbMap", "mapkeys": "KMapKeys", "go": "KGo", "osenv": "KOsEnv", "runtime": "KRuntime", "procstate": "KProcState"}
 	b.WriteString("Definition sites : list site := [\n")
 	for i, s := range sites {
 		sep := ";"
